@@ -1,0 +1,19 @@
+//go:build verif
+
+package codec
+
+import (
+	"github.com/synnaxlabs/synnax/pkg/distribution/channel"
+	"github.com/synnaxlabs/x/telem"
+)
+
+// VerifUpdate queues a channel-set update exactly as Update does, with the data types
+// supplied by the caller instead of being retrieved from a channel service. Exported for
+// verification harnesses built with the verif tag.
+func (c *Codec) VerifUpdate(keys channel.Keys, dataTypes []telem.DataType) {
+	kdt := make(map[channel.Key]telem.DataType, len(keys))
+	for i, k := range keys {
+		kdt[k] = dataTypes[i]
+	}
+	c.update(keys, kdt)
+}
